@@ -633,9 +633,46 @@ theorem C05.cembed_adj (cj : K →+* K) (hcj : ∀ a, cj (cj a) = a) (I : K) (S 
     intro φ _ x y _ _
     rw [dot_smul_left, dot_smul_right cj hcj]
 
-/-- Every modelled leaf satisfies its adjoint contract under its conditions `Leaf.WT`
-(for `opaque`, RealPart/ImagPart/ComplexEmbedding and ComponentProjection(Adjoint) the
-contract itself is the condition: these are established by the matrix oracle only). -/
+/-- ComponentProjection(P, index) for an int / slice / list index with distinct entries, onto
+the sub-product space carrying the same weights: the adjoint is ComponentProjectionAdjoint
+(`out = 0; out[index] = y`), for any number and sizes of components. -/
+theorem C05.proj_adj (cj : K →+* K) (I : K) (P Q : Space K) (idx : Nat → Nat) :
+    LeafOK cj I (.proj P Q idx) := by
+  intro t' hw ha
+  obtain ⟨hreal, hk, hinj⟩ := hw
+  simp [Leaf.adj] at ha; subst ha
+  simp only [Leaf.dom, Leaf.ran, Impl.run, Leaf.run, Leaf.needRe]
+  refine ⟨?_, ?_, ?_⟩
+  · intro x hx h j i; exact hx (by rw [← hreal]; exact h) _ _
+  · intro y hy h j i
+    show cj (assignTo idx y j i Q.m) = assignTo idx y j i Q.m
+    rw [assignTo_eq_sum idx y j i Q.m hinj, map_sum]
+    refine sum_congr rfl fun k _ => ?_
+    rw [apply_ite cj, map_zero, hy (by rw [hreal]; exact h)]
+  · intro φ _ x y _ _
+    rw [proj_dot cj P Q idx hk hinj]
+
+/-- ComponentProjectionAdjoint ↦ ComponentProjection: the reverse direction. -/
+theorem C05.proj_adjoint_adj (cj : K →+* K) (I : K)
+    (Q P : Space K) (idx : Nat → Nat) : LeafOK cj I (.projAdj Q P idx) := by
+  intro t' hw ha
+  obtain ⟨hreal, hk, hinj⟩ := hw
+  simp [Leaf.adj] at ha; subst ha
+  simp only [Leaf.dom, Leaf.ran, Impl.run, Leaf.run, Leaf.needRe]
+  refine ⟨?_, ?_, ?_⟩
+  · intro y hy h j i
+    show cj (assignTo idx y j i Q.m) = assignTo idx y j i Q.m
+    rw [assignTo_eq_sum idx y j i Q.m hinj, map_sum]
+    refine sum_congr rfl fun k _ => ?_
+    rw [apply_ite cj, map_zero, hy (by rw [hreal]; exact h)]
+  · intro x hx h j i; exact hx (by rw [← hreal]; exact h) _ _
+  · intro φ _ y x _ _
+    rw [proj_dot' cj P Q idx hk hinj]
+
+/-- Every modelled leaf satisfies its adjoint contract under its conditions `Leaf.WT`; only
+for `opaque` leaves (operators without an executable model: finite differences, resizing,
+Fourier, wavelets, …) the contract itself is the condition — those are decided by the matrix
+oracle on small spaces. -/
 theorem C05.leaf_sound (cj : K →+* K) (hcj : ∀ a, cj (cj a) = a) (I : K) : LeafSound cj I := by
   intro l
   cases l with
@@ -660,8 +697,8 @@ theorem C05.leaf_sound (cj : K →+* K) (hcj : ∀ a, cj (cj a) = a) (I : K) : L
   | wsum R S idx b cv => exact C05.wsum_sampling_adj cj I R S idx b cv
   | flatten S R => exact C05.flatten_adj cj I S R
   | flattenInv R S => exact C05.flatten_inverse_adj cj I R S
-  | proj P Q idx => intro t' hw ha; exact hw t' ha
-  | projAdj Q P idx => intro t' hw ha; exact hw t' ha
+  | proj P Q idx => exact C05.proj_adj cj I P Q idx
+  | projAdj Q P idx => exact C05.proj_adjoint_adj cj I Q P idx
 
 /-- MAIN THEOREM.  For every expression tree `t` (unbounded depth, all sizes, all weights)
 that is well formed (`WT`: what the ODL constructors check, plus the leaf conditions) and
